@@ -24,7 +24,7 @@ ENCODED = ["twisted.python.filepath:FilePath.child", "twisted.python.filepath:Fi
            "twisted.python.filepath:AbstractFilePath.descendant", "twisted.web.static:File.getChild",
            "twisted.web.static:File.createSimilarFile", "twisted.web.server:Request.process",
            "twisted.web.resource:getChildForRequest", "twisted.web.resource:Resource.getChildWithDefault"]
-BOUNDS = {"quick": {"n": 8, "d": 4, "u": 4, "k": 3}, "thorough": {"n": 7, "d": 6, "u": 6, "k": 4}}
+BOUNDS = {"quick": {"n": 7, "d": 5, "u": 4, "k": 4}, "thorough": {"n": 9, "d": 7, "u": 6, "k": 5}}
 B = {}
 BOUNDS_TEXT = ("parent fixed to /r/ab (sibling /r/abc in mind); child/preauthChild name of <= n arbitrary code "
                "points; descendant of <= 2 segments with <= d characters in total; request path '/' + <= u "
@@ -194,19 +194,215 @@ def descendant(segs: List[str]) -> bool:
     return r.path == ROOT or len(r.path[len(ROOT) + 1:].split("/")) <= len(segs)
 
 
+# ---- static.File behind a Site: Request.process -> getChildForRequest -> File.getChild ----------
+
+_HEXD = "0123456789abcdefABCDEF"
+
+
+def _hexval(c):
+    o = ord(c)
+    if 48 <= o <= 57:
+        return o - 48
+    if 97 <= o <= 102:
+        return o - 87
+    if 65 <= o <= 70:
+        return o - 55
+    return -1
+
+
+def _unquote_text(s):
+    """urllib.parse.unquote_to_bytes on the latin-1 text view: %XX with two hex digits is decoded,
+    any other '%' stays"""
+    bits = s.split("%")
+    if len(bits) == 1:
+        return s
+    res = [bits[0]]
+    for item in bits[1:]:
+        h = _hexval(item[0]) if len(item) >= 2 else -1
+        l = _hexval(item[1]) if len(item) >= 2 else -1
+        if h >= 0 and l >= 0:
+            res.append(chr(h * 16 + l))
+            res.append(item[2:])
+        else:
+            res.append("%")
+            res.append(item)
+    return "".join(res)
+
+
+def _unquote_l(x):
+    return lbytes.LBytes(_unquote_text(lbytes._s(x)))
+
+
+from twisted.web import resource as _resource, server as _server, static as _static  # noqa: E402
+
+LS = lift.lift("twisted.web.static", names=["File"])
+LR = lift.lift("twisted.web.server", names=["Request"], overrides={"unquote": _unquote_l})
+
+
+class _NotFound(_resource._UnsafeNoResource):
+    def __init__(self):
+        _resource._UnsafeNoResource.__init__(self, "File not found.")
+        self.children = lbytes.SymDict()   # compared, not hashed: the segment is symbolic
+
+
+class _File(LS.File):
+    childNotFound = _NotFound()
+
+    def __init__(self, *a, **k):
+        LS.File.__init__(self, *a, **k)
+        self.children = lbytes.SymDict()
+        self.processors = lbytes.SymDict()
+
+
+class _Stop(Exception):
+    pass
+
+
+class _Channel:
+    site = None
+
+
+class _Req(LR.Request):
+    def __init__(self, site, path):
+        ch = _Channel()
+        ch.site = site
+        self.channel = ch
+        self.path = path
+        self.served = None
+
+    def setHeader(self, k, v):
+        pass
+
+    def render(self, resrc):
+        self.served = resrc
+
+    def processingFailed(self, reason):
+        reason.raiseException()
+
+
+_DIRSTAT = os.stat_result((0o040755, 1, 1, 1, 0, 0, 0, 0, 0, 0))
+
+
+def _serve(path_text):
+    """run the real Request.process for b'/' + path against Site(File(ROOT)) on a filesystem where
+    every path exists and is a directory; returns (served resource, [paths stat()ed])"""
+    seen = []
+
+    def fstat(p, *a, **k):
+        seen.append(p)
+        return _DIRSTAT
+
+    def fexists(p):
+        seen.append(p)
+        return True
+
+    saved = (_fp.stat, _fp.exists)
+    _fp.stat, _fp.exists = fstat, fexists
+    try:
+        site = _server.Site(_File(ROOT))
+        req = _Req(site, b("/" + path_text))
+        req.process()
+    finally:
+        _fp.stat, _fp.exists = saved
+    return req.served, seen
+
+
+def _served_ok(res, seen):
+    for p in seen:
+        if not (isinstance(p, str) and _contained(p, False)):
+            return False
+    if isinstance(res, _File):
+        cover("served")
+        return _contained(res.path, False)
+    cover("notfound")
+    return isinstance(res, _resource._UnsafeErrorPageBase)
+
+
+def request(url: str) -> bool:
+    """
+    pre: len(url) <= B['u'] and all(ord(c) < 128 for c in url)
+    post: _
+    """
+    res, seen = _serve(url)
+    cover()
+    return _served_ok(res, seen)
+
+
+MENU = ["..", ".", "%2e", "%2E", "%2f", "%2F", "%5c", "%00", "/", "abc", "x", "%", "\\"]
+
+
+def request_menu(toks: List[int]) -> bool:
+    """
+    pre: len(toks) <= B['k'] and all(0 <= i < len(MENU) for i in toks)
+    post: _
+    """
+    # the solver picks the token sequence; each sequence is then one concrete request
+    url = ""
+    for i in toks:
+        for j in range(len(MENU)):
+            if i == j:
+                url = url + MENU[j]
+                break
+    res, seen = _serve(url)
+    api.obs((url, type(res).__name__, getattr(res, "path", None), seen))
+    cover()
+    return _served_ok(res, seen)
+
+
 def _len_shards(name, key):
     return lambda tier: [("len(%s) == %d" % (name, i),) for i in range(0, BOUNDS[tier][key] + 1)]
 
 
+def _menu_shards(tier):
+    k = BOUNDS[tier]["k"]
+    out = [("len(toks) <= %d" % (k - 2),), ("len(toks) == %d" % (k - 1),)]
+    if tier == "quick":
+        out += [("len(toks) == %d" % k, "toks[0] == %d" % a) for a in range(len(MENU))]
+    else:
+        out += [("len(toks) == %d" % k, "toks[0] == %d" % a, "toks[1] == %d" % c)
+                for a in range(len(MENU)) for c in range(len(MENU))]
+    return out
+
+
+_CLS = ["%s < '%%'", "%s == '%%'", "'%%' < %s < '.'", "%s == '.'", "%s == '/'", "%s > '/'"]
+
+
+def _url_shards(tier):
+    u = BOUNDS[tier]["u"]
+    out = [("len(url) <= %d" % (u - 2),), ("len(url) == %d" % (u - 1),)]
+    if tier == "quick":
+        out += [("len(url) == %d" % u, c % "url[0]") for c in _CLS]
+    else:
+        out += [("len(url) == %d" % u, c % "url[0]", c2 % "url[1]") for c in _CLS for c2 in _CLS]
+    return out
+
+
+def _desc_shards(tier):
+    d = BOUNDS[tier]["d"]
+    out = [("len(segs) == 0",)] + [("len(segs) == 1", "len(segs[0]) == %d" % i) for i in range(0, d + 1)]
+    out += [("len(segs) == 2", "len(segs[0]) == %d" % i, "len(segs[1]) == %d" % j)
+            for i in range(0, d + 1) for j in range(0, d + 1 - i)]
+    return out
+
+
 HARNESSES = [
-    H(child, shards=_len_shards("name", "n"), labels=("end", "refused"), timeout={"quick": 60, "thorough": 900}),
-    H(preauth, shards=_len_shards("path", "n"), labels=("end", "refused"), timeout={"quick": 60, "thorough": 900}),
+    H(child, shards=_len_shards("name", "n"), labels=("end", "refused"), timeout={"quick": 80, "thorough": 1500}),
+    H(preauth, shards=_len_shards("path", "n"), labels=("end", "refused"), timeout={"quick": 80, "thorough": 1500}),
+    H(descendant, shards=_desc_shards, labels=("end", "refused"), timeout={"quick": 60, "thorough": 900}),
+    H(request, shards=_url_shards, labels=("end", "served", "notfound"),
+      timeout={"quick": 80, "thorough": 1500}),
+    H(request_menu, shards=_menu_shards, labels=("end", "served", "notfound"),
+      timeout={"quick": 80, "thorough": 1500}, note="solver-driven case split over a traversal token menu"),
 ]
 
 VECTORS = {
     "child": [("x",), ("..",), ("",), (".",), ("a/b",), ("/etc",), ("x\x00",), ("../abc",), ("x/..",), ("//",)],
     "preauth": [("x",), ("../abX",), ("../ab",), ("../ab/x",), ("a/../..",), ("/r/ab/x",), ("//r/ab/x",), ("",),
                 ("a//b/",), ("../abc",)],
+    "descendant": [([],), (["x"],), (["x", "y"],), (["..", "ab"],), (["x", ".."],), (["", ""],), (["a/b"],)],
+    "request": [("x",), ("",), ("..",), ("%2e%2e",), ("a/..",), ("%2f",), ("%2e.",), ("x%00",), ("../abc",),
+                ("%2e%2e%2fabc",), ("a//b",), ("%",), ("%2",), ("%zz",)],
+    "request_menu": [([0, 8, 9],), ([2, 2, 4],), ([],), ([10, 8, 0],), ([7],), ([11, 2],), ([12, 0, 12],)],
 }
 
 _CORPUS_PARTS = ["", "/", "//", "///", ".", "..", "a", "ab", "abc", "x\x00", "\x00", "./", "../", "/..", "/.",
@@ -224,4 +420,10 @@ def selftest():
                 assert _join(ROOT, a, c + d) == os.path.join(ROOT, a, c + d), (a, c, d)
                 assert _join(a, p) == posixpath.join(a, p)
                 n += 4
+    from urllib.parse import unquote_to_bytes
+    for a in ["", "%", "%2", "%2e", "%2E", "%2f", "%zz", "%%", "a%2eb", "%2", "%e", "%25", "%00", "%ff", "%Fg", "x", "%2e%2e%2f",
+              "%g0", "%0", "%a", "%A1", "/"]:
+        for c in ["", "%", "%2e", "2e", "e", "/..", "%2F%"]:
+            assert _unquote_text(a + c) == unquote_to_bytes((a + c).encode("latin-1")).decode("latin-1"), a + c
+            n += 1
     return n + lbytes.selftest()
